@@ -139,8 +139,10 @@ func (*c11) Execute(ci any) any {
 		obs.chartTerm = coqChart(l, c.Chart)
 		obs.compat = compatTable(l)
 	})
-	if obs.Stage == "ok" && (c.Kind == "gen" || c.Kind == "corpus") {
+	if obs.Stage == "ok" && (c.Kind == "gen" || c.Kind == "corpus" || c.Kind == "imp" || c.Kind == "deep") {
 		obs.Meta = c11Metamorphic(c, obs.c11Run)
+		obs.Meta = append(obs.Meta, c11DepthChecks(c, obs.c11Run)...)
+		obs.Meta = append(obs.Meta, c11ImportChecks(c, obs.c11Run)...)
 	}
 	obs.CRDsSent = []string{}
 	if obs.Stage != "load-error" && obs.Stage != "panic" && !strings.HasPrefix(c.Kind, "tt") {
@@ -759,7 +761,7 @@ func (*c11) CoqCase(ci, oi any) string {
 
 func (*c11) Class(ci, oi any) string {
 	c, obs := ci.(c11Case), oi.(c11Obs)
-	return c.Kind + "/" + obs.Stage
+	return c.Kind + "/" + obs.Stage + c11Features(c, obs)
 }
 
 func (*c11) NonTrivial(ci, oi any) bool {
@@ -833,6 +835,44 @@ func (*c11) Corpus() []any {
 			Charts: []*vChart{leaf("my.sub", tbl("x", 1.0))},
 			Deps:   []vDep{{Name: "my.sub", Version: "1.0.0"}}},
 		Vals: tbl()})
+	// round 4 (appended, earlier indices unchanged)
+	// fixed f7a1384: two siblings export tables with a common nested key; the second import must not
+	// write into the first child's own values (suba saw subb's data.fromB)
+	out = append(out, c11Case{Kind: "corpus",
+		Chart: &vChart{Name: "top", Version: "1.0.0", Values: tbl(),
+			Charts: []*vChart{leaf("suba", tbl("exports", tbl("one", tbl("data", tbl("fromA", 1.0))))),
+				leaf("subb", tbl("exports", tbl("two", tbl("data", tbl("fromB", 2.0)))))},
+			Deps: []vDep{{Name: "suba", Version: "1.0.0", Imports: []any{"one"}}, {Name: "subb", Version: "1.0.0", Imports: []any{"two"}}}},
+		Vals: tbl()})
+	// import-values through two levels and two aliases: gca's export reaches top via suba
+	out = append(out, c11Case{Kind: "corpus",
+		Chart: &vChart{Name: "top", Version: "1.0.0", Values: tbl("imp", 9.0),
+			Charts: []*vChart{{Name: "suba", Version: "1.0.0", Values: tbl("k", 1.0),
+				Charts: []*vChart{leaf("gca", tbl("exports", tbl("data", tbl("imp", 5.0, "deep", tbl("a", 1.0)))))},
+				Deps: []vDep{{Name: "gca", Version: "1.0.0", Alias: "g1",
+					Imports: []any{map[string]any{"child": "exports.data", "parent": "exports.data"}}}}},
+				leaf("subb", tbl("x", tbl("k", 3.0)))},
+			Deps: []vDep{{Name: "suba", Version: "1.0.0", Alias: "a1", Imports: []any{"data"}},
+				{Name: "subb", Version: "1.0.0", Imports: []any{map[string]any{"child": "x", "parent": "imported.x"}}}}},
+		Vals: tbl("deep", tbl("a", 7.0))})
+	// a disabled dependency imports nothing
+	out = append(out, c11Case{Kind: "corpus",
+		Chart: &vChart{Name: "top", Version: "1.0.0", Values: tbl(),
+			Charts: []*vChart{leaf("suba", tbl("exports", tbl("data", tbl("imp", 1.0)))), leaf("subb", tbl("k", 2.0))},
+			Deps: []vDep{{Name: "suba", Version: "1.0.0", Condition: "suba.enabled", Imports: []any{"data"}}, {Name: "subb", Version: "1.0.0"}}},
+		Vals: tbl("suba", tbl("enabled", false))})
+	// depth three with aliases on every level; a1's chain is whole, a2's is cut at g1 by the user
+	// although the tag says true; l1 is enabled by gca's own defaults (the example of C11_enabled_tree_example)
+	out = append(out, c11Case{Kind: "corpus",
+		Chart: &vChart{Name: "top", Version: "1.0.0", Values: tbl(),
+			Charts: []*vChart{{Name: "suba", Version: "1.0.0", Values: tbl(),
+				Charts: []*vChart{{Name: "gca", Version: "1.0.0", Values: tbl("l1", tbl("on", true)),
+					Charts: []*vChart{leaf("leaf", tbl("z", 1.0, "global", tbl("g", 0.0)))},
+					Deps:   []vDep{{Name: "leaf", Version: "*", Alias: "l1", Condition: "l1.on"}}}},
+				Deps: []vDep{{Name: "gca", Version: "*", Alias: "g1", Condition: "g1.enabled", Tags: []string{"t1"}}}}},
+			Deps: []vDep{{Name: "suba", Version: "*", Alias: "a1"}, {Name: "suba", Version: "*", Alias: "a2"}}},
+		Vals: tbl("a2", tbl("g1", tbl("enabled", false)), "tags", tbl("t1", true), "global", tbl("g", 7.0),
+			"a1", tbl("g1", tbl("l1", tbl("u", 5.0))))})
 	return out
 }
 
@@ -1239,12 +1279,787 @@ func (g *c11Gen) tree() *vChart {
 
 func (*c11) Generate(r *rand.Rand, _ int) any {
 	g := &c11Gen{r: r, malformed: r.Intn(6) == 0}
-	t := g.tree()
+	var t *vChart
+	var vals map[string]any
 	kind := "gen"
+	switch mode := r.Intn(10); {
+	case mode < 3:
+		kind, t = "imp", g.impTree()
+		vals = g.impVals(t, 0, false)
+	case mode < 5:
+		kind, t = "deep", g.deepTree()
+		vals = g.vals(t, 0)
+	default:
+		t = g.tree()
+		vals = g.vals(t, 0)
+	}
 	if g.malformed {
 		kind = "malformed"
 	}
-	vals := g.vals(t, 0)
 	delete(vals, "exports")
 	return c11Case{Kind: kind, Chart: t, Vals: deepCopyVals(vals)}
+}
+
+// =====================================================================================
+// Round 4: import-values and deep trees: generators, metamorphic checks on the real code
+// =====================================================================================
+
+// c11Loc: a chart of the processed tree (as observed on the real code) together with the chart
+// directory of the description it came from.
+type c11Loc struct {
+	desc *vChart
+	node *c11Node
+	idx  []int    // position of desc in the description (indices into Charts)
+	keys []string // names on the path below the root, as rendered (alias, else name)
+	dir  string   // ChartFullPath
+	anc  []*vChart
+}
+
+// c11Locs walks the processed tree; subtrees whose origin in the description is ambiguous are
+// left out, and chart directories that appear more than once (two aliases) are marked shared.
+func c11Locs(c c11Case, tree *c11Node) (locs []c11Loc, shared map[*vChart]bool) {
+	shared = map[*vChart]bool{}
+	seen := map[*vChart]int{}
+	var walk func(d *vChart, n *c11Node, idx []int, keys []string, dir string, anc []*vChart)
+	walk = func(d *vChart, n *c11Node, idx []int, keys []string, dir string, anc []*vChart) {
+		locs = append(locs, c11Loc{desc: d, node: n, idx: idx, keys: keys, dir: dir, anc: anc})
+		seen[d]++
+		for i := range n.Kids {
+			k := &n.Kids[i]
+			if strings.Contains(k.Name, ".") {
+				continue
+			}
+			dk, amb := descOf(d, k.Name)
+			if dk == nil || amb {
+				continue
+			}
+			pos := -1
+			for j, s := range d.Charts {
+				if s == dk {
+					pos = j
+				}
+			}
+			walk(dk, k, append(append([]int{}, idx...), pos), append(append([]string{}, keys...), k.Name),
+				dir+"/charts/"+k.Name, append(append([]*vChart{}, anc...), d))
+		}
+	}
+	if tree != nil {
+		walk(c.Chart, tree, nil, nil, c.Chart.Name, nil)
+	}
+	for d, n := range seen {
+		if n > 1 {
+			shared[d] = true
+		}
+	}
+	return locs, shared
+}
+
+func cloneChart(c *vChart) *vChart {
+	b, _ := json.Marshal(c)
+	var o vChart
+	json.Unmarshal(b, &o)
+	return &o
+}
+
+func chartAtIdx(c *vChart, idx []int) *vChart {
+	for _, i := range idx {
+		if i < 0 || i >= len(c.Charts) {
+			return nil
+		}
+		c = c.Charts[i]
+	}
+	return c
+}
+
+func depKey(d vDep) string {
+	if d.Alias != "" {
+		return d.Alias
+	}
+	return d.Name
+}
+
+func hasImports(c *vChart) bool {
+	for _, d := range c.Deps {
+		if len(d.Imports) > 0 {
+			return true
+		}
+	}
+	return false
+}
+
+// relatedKeys: every key of c's values that may be a subchart's section: names of the chart
+// directories and aliases of the requirements.
+func relatedKeys(c *vChart) map[string]bool {
+	m := map[string]bool{}
+	for _, s := range c.Charts {
+		m[s.Name] = true
+	}
+	for _, d := range c.Deps {
+		m[depKey(d)] = true
+		m[d.Name] = true
+	}
+	return m
+}
+
+// importLanding: a superset of the top-level keys under which requirement r of chart x can put
+// imported values, computed from the description alone; ok=false when it cannot be bounded
+// simply (the child imports itself, paths through globals or the child's own subcharts, bad entries).
+func importLanding(x *vChart, r vDep) (keys map[string]bool, ok bool) {
+	child := x.child(r.Name)
+	if child == nil || hasImports(child) {
+		return nil, false
+	}
+	keys = map[string]bool{}
+	rel := relatedKeys(child)
+	for _, iv := range r.Imports {
+		var cpath []string
+		parent := "."
+		switch t := iv.(type) {
+		case string:
+			cpath = []string{"exports", t}
+		case map[string]any:
+			cs, cok := t["child"].(string)
+			ps, pok := t["parent"].(string)
+			if !cok || !pok {
+				return nil, false
+			}
+			cpath, parent = strings.Split(cs, "."), ps
+		default:
+			continue
+		}
+		if cpath[0] == "global" || rel[cpath[0]] {
+			return nil, false
+		}
+		if parent != "." {
+			keys[strings.Split(parent, ".")[0]] = true
+			continue
+		}
+		for _, src := range []map[string]any{child.Values, sectionOf(x.Values, depKey(r))} {
+			if t, ok := lookupPath(src, cpath); ok {
+				if m, ok := t.(map[string]any); ok {
+					for k := range m {
+						keys[k] = true
+					}
+				}
+			}
+		}
+	}
+	return keys, true
+}
+
+func sectionOf(m map[string]any, k string) map[string]any {
+	s, _ := m[k].(map[string]any)
+	return s
+}
+
+func isPlainLeaf(v any) bool {
+	if v == nil {
+		return false
+	}
+	_, isMap := v.(map[string]any)
+	return !isMap
+}
+
+// leaves calls f for every plain (non-null, non-table) leaf below m
+func leaves(m map[string]any, prefix []string, f func(path []string, v any)) {
+	for _, k := range sortedAnyKeys(m) {
+		v := m[k]
+		p := append(append([]string{}, prefix...), k)
+		if sub, ok := v.(map[string]any); ok {
+			leaves(sub, p, f)
+		} else if isPlainLeaf(v) {
+			f(p, v)
+		}
+	}
+}
+
+func sortedAnyKeys(m map[string]any) []string {
+	ks := make([]string, 0, len(m))
+	for k := range m {
+		ks = append(ks, k)
+	}
+	sort.Strings(ks)
+	return ks
+}
+
+// definesPrefix: some prefix of path is a key chain present in m (so m says something about it)
+func definesPrefix(m map[string]any, path []string) bool {
+	cur := m
+	for i, s := range path {
+		v, ok := cur[s]
+		if !ok {
+			return false
+		}
+		if i == len(path)-1 {
+			return true
+		}
+		nx, isMap := v.(map[string]any)
+		if !isMap {
+			return true
+		}
+		cur = nx
+	}
+	return false
+}
+
+func sameViews(a, b c11Run, keep func(path string) bool) []string {
+	var out []string
+	for p, v := range a.Rendered {
+		if !keep(p) {
+			continue
+		}
+		if w, ok := b.Rendered[p]; !ok || !jsonEq(v, w) {
+			out = append(out, p)
+		}
+	}
+	sort.Strings(out)
+	return out
+}
+
+// c11ImportChecks: the import-values clauses evaluated on the implementation.
+func c11ImportChecks(c c11Case, base c11Run) []string {
+	var out []string
+	if base.Stage != "ok" || base.Tree == nil || !scanGlobalsOK(map[string]any(c.Vals)) || !chartGlobalsOK(c.Chart) {
+		return nil
+	}
+	locs, shared := c11Locs(c, base.Tree)
+	probe := func(l c11Loc) string { return l.dir + "/" + probeTemplate }
+	budget := 4
+	for _, l := range locs {
+		x := l.desc
+		view, _ := base.Rendered[probe(l)].(map[string]any)
+		rel := relatedKeys(x)
+		// user-supplied values win over imported ones (and over every other chart value), at any depth
+		if view != nil {
+			sect := map[string]any(c.Vals)
+			for _, k := range l.keys {
+				sect = sectionOf(sect, k)
+			}
+			for _, k := range sortedAnyKeys(sect) {
+				if rel[k] || k == "global" {
+					continue
+				}
+				sub := map[string]any{k: sect[k]}
+				leaves(sub, nil, func(path []string, v any) {
+					if got, ok := lookupPath(view, path); !ok || !jsonEq(got, v) {
+						out = append(out, "user-value-lost:"+l.dir+":"+strings.Join(path, "."))
+					}
+				})
+			}
+		}
+		// the root's own values win over imported ones
+		if len(l.keys) == 0 && view != nil {
+			for _, k := range sortedAnyKeys(x.Values) {
+				if rel[k] || k == "global" {
+					continue
+				}
+				leaves(map[string]any{k: x.Values[k]}, nil, func(path []string, v any) {
+					if definesPrefix(c.Vals, path) {
+						return
+					}
+					if got, ok := lookupPath(view, path); !ok || !jsonEq(got, v) {
+						out = append(out, "chart-own-value-lost:"+strings.Join(path, "."))
+					}
+				})
+			}
+		}
+		if shared[x] {
+			continue
+		}
+		kept := map[string]bool{}
+		for _, n := range l.node.MDeps {
+			kept[n] = true
+		}
+		// an importing ancestor may put values on "global" or on the keys of this chart's line
+		ancImports, ancSafe := false, true
+		for i, a := range l.anc {
+			for _, ar := range a.Deps {
+				if len(ar.Imports) == 0 {
+					continue
+				}
+				ancImports = true
+				lk, ok := importLanding(a, ar)
+				if !ok || lk["global"] || lk[l.keys[i]] {
+					ancSafe = false
+				}
+			}
+		}
+		nImp := 0
+		for _, r := range x.Deps {
+			if len(r.Imports) > 0 {
+				nImp++
+			}
+		}
+		for ri, r := range x.Deps {
+			if len(r.Imports) == 0 || budget == 0 {
+				continue
+			}
+			budget--
+			cp := cloneChart(c.Chart)
+			chartAtIdx(cp, l.idx).Deps[ri].Imports = nil
+			r2 := c11Pipeline(cp, c.Vals, nil)
+			if !kept[depKey(r)] {
+				// a disabled dependency imports nothing: dropping its import-values changes no view
+				if r2.Stage != "ok" || !sameShape(base, r2) {
+					out = append(out, "disabled-dependency-imports:"+l.dir+":"+depKey(r))
+				} else if d := sameViews(base, r2, func(string) bool { return true }); len(d) > 0 {
+					out = append(out, "disabled-dependency-imports:"+l.dir+":"+depKey(r)+":"+d[0])
+				}
+				continue
+			}
+			if r2.Stage != "ok" || !sameShape(base, r2) {
+				continue
+			}
+			landing, ok := importLanding(x, r)
+			if !ok || !ancSafe {
+				continue
+			}
+			// imports never leak into the subcharts of the importing chart (the imported one and its
+			// siblings) unless they land on that subchart's key or on "global" ...
+			for i := range l.node.Kids {
+				ck := l.node.Kids[i].Name
+				if landing[ck] || landing["global"] {
+					continue
+				}
+				under := l.dir + "/charts/" + ck + "/"
+				if d := sameViews(base, r2, func(p string) bool { return strings.HasPrefix(p, under) }); len(d) > 0 {
+					out = append(out, "import-values-leak-into:"+d[0])
+				}
+			}
+			// ... nor anywhere outside the importing chart's own line of ancestors
+			if !ancImports && len(l.keys) > 0 {
+				if d := sameViews(base, r2, func(p string) bool {
+					if strings.HasPrefix(p, l.dir+"/") {
+						return false
+					}
+					for _, q := range locs {
+						if p == probe(q) && strings.HasPrefix(l.dir+"/", q.dir+"/") {
+							return false
+						}
+					}
+					return true
+				}); len(d) > 0 {
+					out = append(out, "import-values-leak-into:"+d[0])
+				}
+			}
+			// an import lands at the named parent path (the string form: at the root of the parent's
+			// values): with nothing else writing there, every plain value of the child's table is seen by
+			// the root at parent.path
+			if len(l.keys) == 0 && nImp == 1 && len(r.Imports) == 1 && view != nil {
+				cs, ps := "", ""
+				switch t := r.Imports[0].(type) {
+				case string:
+					cs, ps = "exports."+t, "."
+				case map[string]any:
+					cs, _ = t["child"].(string)
+					ps, _ = t["parent"].(string)
+				}
+				child := x.child(r.Name)
+				_, sec := x.Values[depKey(r)]
+				_, usec := c.Vals[depKey(r)]
+				if cs != "" && ps != "" && child != nil && !sec && !usec && !strings.HasPrefix(cs, "global") {
+					var ppath []string
+					if ps != "." {
+						ppath = strings.Split(ps, ".")
+					}
+					if t, found := lookupPath(child.Values, strings.Split(cs, ".")); found {
+						if tm, isTable := t.(map[string]any); isTable {
+							leaves(tm, nil, func(path []string, v any) {
+								full := append(append([]string{}, ppath...), path...)
+								_, own := x.Values[full[0]]
+								_, usr := c.Vals[full[0]]
+								if own || usr || rel[full[0]] || full[0] == "global" {
+									return
+								}
+								if got, ok := lookupPath(view, full); !ok || !jsonEq(got, v) {
+									out = append(out, "import-values-not-at-parent-path:"+strings.Join(full, "."))
+								}
+							})
+						}
+					}
+				}
+			}
+		}
+	}
+	sort.Strings(out)
+	return out
+}
+
+// c11DepthChecks: isolation and global flow at the deepest rendered chart (depth >= 2).
+func c11DepthChecks(c c11Case, base c11Run) []string {
+	var out []string
+	if base.Stage != "ok" || base.Tree == nil || !scanGlobalsOK(map[string]any(c.Vals)) || !chartGlobalsOK(c.Chart) {
+		return nil
+	}
+	locs, _ := c11Locs(c, base.Tree)
+	var deep *c11Loc
+	for i := range locs {
+		l := &locs[i]
+		if _, ok := base.Rendered[l.dir+"/"+probeTemplate]; !ok {
+			continue
+		}
+		if deep == nil || len(l.keys) > len(deep.keys) {
+			deep = l
+		}
+	}
+	if deep == nil || len(deep.keys) < 2 {
+		return nil
+	}
+	with := func(v map[string]any, val any, path ...string) bool {
+		cur := v
+		for i, s := range path {
+			if i == len(path)-1 {
+				cur[s] = val
+				return true
+			}
+			nx, ok := cur[s]
+			if !ok {
+				m := map[string]any{}
+				cur[s] = m
+				cur = m
+				continue
+			}
+			m, ok := nx.(map[string]any)
+			if !ok {
+				return false
+			}
+			cur = m
+		}
+		return false
+	}
+	underDir := func(p, dir string) bool { return strings.HasPrefix(p, dir+"/") }
+	ancestorOf := func(p string) (int, bool) { // p is the probe of the chart at depth i on the way to deep
+		dir := c.Chart.Name
+		for i := 0; i <= len(deep.keys); i++ {
+			if p == dir+"/"+probeTemplate {
+				return i, true
+			}
+			if i < len(deep.keys) {
+				dir += "/charts/" + deep.keys[i]
+			}
+		}
+		return 0, false
+	}
+	// (a)/(c) a key in the deepest chart's section: delivered there, seen by the ancestors only inside
+	// the nested section, by nobody else
+	v := deepCopyVals(c.Vals)
+	if with(v, float64(41), append(append([]string{}, deep.keys...), "zzd")...) {
+		r := c11Pipeline(c.Chart, v, nil)
+		if !sameShape(base, r) {
+			out = append(out, "deep-key-changes-tree")
+		} else {
+			for p, view := range r.Rendered {
+				if i, isAnc := ancestorOf(p); isAnc {
+					m, _ := view.(map[string]any)
+					path := append(append([]string{}, deep.keys[i:]...), "zzd")
+					if x, ok := lookupPath(m, path); !ok || !jsonEq(x, float64(41)) {
+						out = append(out, "deep-key-not-delivered:"+p)
+					}
+					continue
+				}
+				if underDir(p, deep.dir) {
+					continue
+				}
+				if !jsonEq(view, base.Rendered[p]) {
+					out = append(out, "deep-key-visible-in:"+p)
+				}
+			}
+		}
+	}
+	// (b) the ancestor's global wins at any depth: the user's top-level global beats the same key in
+	// the deepest section; a global in the first-level section beats the deepest section's below it
+	// and reaches nobody outside
+	v = deepCopyVals(c.Vals)
+	first := c.Chart.Name + "/charts/" + deep.keys[0]
+	if with(v, float64(7), "global", "zzw") && with(v, float64(8), append(append([]string{}, deep.keys...), "global", "zzw")...) &&
+		with(v, float64(5), deep.keys[0], "global", "zzv") && with(v, float64(6), append(append([]string{}, deep.keys...), "global", "zzv")...) {
+		r := c11Pipeline(c.Chart, v, nil)
+		if r.Stage == "ok" && sameShape(base, r) {
+			for p, view := range r.Rendered {
+				m, _ := view.(map[string]any)
+				if x, ok := lookupPath(m, []string{"global", "zzw"}); !ok || !jsonEq(x, float64(7)) {
+					out = append(out, "ancestor-global-does-not-win-in:"+p)
+				}
+				x, ok := lookupPath(m, []string{"global", "zzv"})
+				if underDir(p, first) {
+					if !ok || !jsonEq(x, float64(5)) {
+						out = append(out, "ancestor-global-does-not-win-in:"+p)
+					}
+				} else if ok {
+					out = append(out, "child-global-leaks-to:"+p)
+				}
+			}
+		}
+	}
+	sort.Strings(out)
+	return out
+}
+
+// ---- features of a case for the input distribution
+
+func c11Features(c c11Case, obs c11Obs) string {
+	if strings.HasPrefix(c.Kind, "tt") || c.Kind == "crd" || obs.Stage != "ok" {
+		return ""
+	}
+	depth, aliasLevels := 0, map[int]bool{}
+	str, mp, nested := false, false, false
+	var walk func(x *vChart, d int)
+	walk = func(x *vChart, d int) {
+		for _, r := range x.Deps {
+			if r.Alias != "" {
+				aliasLevels[d] = true
+			}
+			for _, iv := range r.Imports {
+				switch iv.(type) {
+				case string:
+					str = true
+				case map[string]any:
+					mp = true
+				}
+			}
+			if len(r.Imports) > 0 {
+				if ch := x.child(r.Name); ch != nil && hasImports(ch) {
+					nested = true
+				}
+			}
+		}
+		for _, s := range x.Charts {
+			walk(s, d+1)
+		}
+	}
+	walk(c.Chart, 0)
+	for p := range obs.Rendered {
+		if n := strings.Count(p, "/charts/"); n > depth {
+			depth = n
+		}
+	}
+	iv := "-"
+	switch {
+	case str && mp:
+		iv = "both"
+	case str:
+		iv = "str"
+	case mp:
+		iv = "map"
+	}
+	if nested {
+		iv += "+nested"
+	}
+	al := len(aliasLevels)
+	if al > 2 {
+		al = 2
+	}
+	return fmt.Sprintf("/depth%d/alias-levels%d/imports:%s", depth, al, iv)
+}
+
+// ---- generators
+
+func (g *c11Gen) exportTable() map[string]any {
+	m := map[string]any{}
+	for _, k := range []string{"imp", "x"} {
+		if g.r.Intn(2) == 0 {
+			m[k] = g.scalar()
+		}
+	}
+	if g.r.Intn(3) == 0 {
+		m["enabled"] = g.r.Intn(2) == 0
+	}
+	if g.r.Intn(2) == 0 {
+		s := map[string]any{}
+		for _, k := range []string{"a", "b", "c"} {
+			if g.r.Intn(2) == 0 {
+				s[k] = g.scalar()
+			}
+		}
+		m["shared"] = s
+	}
+	return m
+}
+
+// impVals: values as written for chart c in an import-values case (its own values.yaml when own,
+// else a section somebody else writes for it)
+func (g *c11Gen) impVals(c *vChart, depth int, own bool) map[string]any {
+	m := map[string]any{}
+	p := 4
+	if own {
+		p = 1
+	}
+	if g.r.Intn(p+1) < 2 {
+		e := map[string]any{}
+		for _, n := range []string{"data", "more"} {
+			if g.r.Intn(3) > 0 {
+				e[n] = g.exportTable()
+			}
+		}
+		m["exports"] = e
+	}
+	if g.r.Intn(p+1) < 2 {
+		m["x"] = map[string]any{"k": g.scalar(), "enabled": g.boolish()}
+	}
+	// keys on which imports land
+	if g.r.Intn(4) == 0 {
+		m["imp"] = g.scalar()
+	}
+	if g.r.Intn(5) == 0 {
+		m["shared"] = map[string]any{"a": g.scalar()}
+	}
+	if g.r.Intn(6) == 0 {
+		m["imported"] = map[string]any{"x": map[string]any{"k": g.scalar()}}
+	}
+	if g.r.Intn(4) == 0 {
+		m["enabled"] = g.boolish()
+	}
+	if g.r.Intn(4) == 0 {
+		m["global"] = g.globalTable(1)
+	}
+	if g.r.Intn(5) == 0 {
+		m["tags"] = map[string]any{"t1": g.boolish()}
+	}
+	if depth < 3 {
+		for _, k := range kidKeys(c) {
+			if g.r.Intn(3) == 0 {
+				m[k.key] = g.impVals(k.ch, depth+1, false)
+			}
+		}
+	}
+	return m
+}
+
+func (g *c11Gen) importEntries(nested bool) []any {
+	pool := []any{"data", "data", "more", "missing",
+		map[string]any{"child": "x", "parent": "imported.x"},
+		map[string]any{"child": "exports.data", "parent": "."},
+		map[string]any{"child": "x", "parent": "imported"},
+		map[string]any{"child": "exports.more", "parent": "deep.er.path"},
+		map[string]any{"child": "exports.data.shared", "parent": "shared"},
+		map[string]any{"child": "nothing.here", "parent": "imported.none"}}
+	if nested {
+		// what the child got from ITS child is passed on by the parent's import of "data"
+		pool = append(pool, map[string]any{"child": "exports.data", "parent": "exports.data"},
+			map[string]any{"child": "exports.more", "parent": "exports.data.nested"},
+			map[string]any{"child": "exports.data", "parent": "exports.data"})
+	}
+	if g.malformed && g.r.Intn(3) == 0 {
+		pool = append(pool, map[string]any{"child": float64(1), "parent": "x"}, float64(3))
+	}
+	n := 1 + g.r.Intn(3)
+	var out []any
+	for i := 0; i < n; i++ {
+		out = append(out, pool[g.r.Intn(len(pool))])
+	}
+	return out
+}
+
+func (g *c11Gen) impRequirements(c *vChart, depth int) {
+	used := map[string]bool{}
+	for _, s := range c.Charts {
+		if g.r.Intn(8) == 0 {
+			continue
+		}
+		n := 1
+		if g.r.Intn(6) == 0 {
+			n = 2
+		}
+		for i := 0; i < n; i++ {
+			d := vDep{Name: s.Name, Version: "1.0.0"}
+			if n == 2 || g.r.Intn(3) == 0 {
+				d.Alias = c11Aliases[s.Name][i%2]
+			}
+			key := depKey(d)
+			if used[key] {
+				continue
+			}
+			used[key] = true
+			switch g.r.Intn(8) {
+			case 0, 1:
+				d.Condition = key + ".enabled"
+			case 2:
+				// paths on which only imported values could put a boolean
+				d.Condition = []string{"enabled", "imported.x.enabled", "shared.enabled", "imp"}[g.r.Intn(4)]
+			case 3:
+				d.Condition = key + ".x.enabled," + key + ".enabled"
+			}
+			if g.r.Intn(5) == 0 {
+				d.Tags = []string{"t1"}
+			}
+			if g.r.Intn(3) > 0 {
+				d.Imports = g.importEntries(len(s.Charts) > 0)
+			}
+			c.Deps = append(c.Deps, d)
+		}
+	}
+}
+
+func (g *c11Gen) impTree() *vChart {
+	top := &vChart{Name: "top", Version: "1.0.0"}
+	suba := &vChart{Name: "suba", Version: "1.0.0"}
+	gca := &vChart{Name: "gca", Version: "1.0.0"}
+	if g.r.Intn(2) == 0 {
+		gca.Charts = []*vChart{{Name: "leaf", Version: "1.0.0"}}
+	}
+	if g.r.Intn(4) > 0 {
+		suba.Charts = []*vChart{gca}
+	}
+	top.Charts = []*vChart{suba, {Name: "subb", Version: "1.0.0"}}
+	if g.r.Intn(2) == 0 {
+		top.Charts = append(top.Charts, &vChart{Name: "subc", Version: "1.0.0"})
+	}
+	var fill func(c *vChart, depth int)
+	fill = func(c *vChart, depth int) {
+		g.impRequirements(c, depth)
+		for _, s := range c.Charts {
+			fill(s, depth+1)
+		}
+		c.Values = g.impVals(c, depth, true)
+	}
+	fill(top, 0)
+	return top
+}
+
+// deepTree: a chain top -> suba -> gca -> leaf, every link listed, aliases on at least two
+// levels, with a sibling beside the chain on two levels
+func (g *c11Gen) deepTree() *vChart {
+	leaf := &vChart{Name: "leaf", Version: "1.0.0"}
+	gca := &vChart{Name: "gca", Version: "1.0.0", Charts: []*vChart{leaf}}
+	gcb := &vChart{Name: "gcb", Version: "1.0.0"}
+	suba := &vChart{Name: "suba", Version: "1.0.0", Charts: []*vChart{gca, gcb}}
+	subb := &vChart{Name: "subb", Version: "1.0.0"}
+	top := &vChart{Name: "top", Version: "1.0.0", Charts: []*vChart{suba, subb}}
+	a1 := g.r.Intn(3)
+	aliasAt := map[int]bool{a1: true, (a1 + 1 + g.r.Intn(2)) % 3: true}
+	if g.r.Intn(3) == 0 {
+		aliasAt = map[int]bool{0: true, 1: true, 2: true}
+	}
+	var fill func(c *vChart, depth int)
+	fill = func(c *vChart, depth int) {
+		for i, s := range c.Charts {
+			d := vDep{Name: s.Name, Version: "1.0.0"}
+			if i == 0 && aliasAt[depth] {
+				d.Alias = c11Aliases[s.Name][g.r.Intn(2)]
+			}
+			key := depKey(d)
+			if g.r.Intn(3) > 0 {
+				d.Condition = []string{key + ".enabled", key + ".flag," + key + ".enabled", "global.gon", "flag", key + ".x.enabled"}[g.r.Intn(5)]
+			}
+			if g.r.Intn(3) == 0 {
+				d.Tags = []string{"t1"}
+			}
+			if g.r.Intn(6) == 0 {
+				d.Imports = g.importEntries(len(s.Charts) > 0)
+			}
+			c.Deps = append(c.Deps, d)
+		}
+		for _, s := range c.Charts {
+			fill(s, depth+1)
+		}
+		c.Values = g.vals(c, depth)
+		// bias towards enabled links so that the deep charts are reached
+		for _, k := range kidKeys(c) {
+			if s, ok := c.Values[k.key].(map[string]any); ok && g.r.Intn(3) > 0 {
+				s["enabled"] = true
+			}
+		}
+	}
+	fill(top, 0)
+	return top
 }
